@@ -1048,7 +1048,12 @@ func (r *runner) scenarioState(idx int, big bool, nblocks int) {
 			}
 			p.fork = rg.Chance(1, 8)
 		}
-		w.block(p)
+		if res := hx.Guard(func() string { w.block(p); return "" }); res != "" {
+			// a panic inside state.Commit / trieDB.Commit / the readers: the node would
+			// crash-loop on this block; the scenario cannot continue
+			r.violate("panic-in-commit-path", "panic while committing or re-reading a state: "+res)
+			return
+		}
 	}
 }
 
@@ -1085,24 +1090,24 @@ func main() {
 	var plan []sc
 	switch mode {
 	case "corr":
-		n := 14
+		n := 40
 		if tier == "thorough" {
-			n = 60
+			n = 400
 		}
 		for i := 0; i < n; i++ {
 			plan = append(plan, sc{big: i%5 == 4, nblocks: 6 + i%7})
 		}
-		nb := 40
+		nb := 150
 		if tier == "thorough" {
-			nb = 300
+			nb = 2000
 		}
 		for i := 0; i < nb; i++ {
 			plan = append(plan, sc{blob: true})
 		}
 	case "search":
-		n := 10
+		n := 30
 		if tier == "thorough" {
-			n = 60
+			n = 400
 		}
 		for i := 0; i < n; i++ {
 			plan = append(plan, sc{big: i%2 == 0, nblocks: 10 + i%9})
